@@ -43,6 +43,12 @@ func LaplacianSmooth(m modeling.Mesh, attribute string, iterations int, smoothin
 
 	for i := 0; i < iterations; i++ {
 		for vi, vertex := range vertices {
+			// A vertex no primitive refers to has no neighbors to move
+			// towards: leave it where it is instead of dividing by zero
+			if lut.Count(vi) == 0 {
+				continue
+			}
+
 			var sum vector3.Float64
 
 			for vn := range lut.Lookup(vi) {
@@ -77,6 +83,12 @@ func LaplacianSmoothAlongAxis(m modeling.Mesh, attribute string, iterations int,
 
 	for i := 0; i < iterations; i++ {
 		for vi, vertex := range vertices {
+			// A vertex no primitive refers to has no neighbors to move
+			// towards: leave it where it is instead of dividing by zero
+			if lut.Count(vi) == 0 {
+				continue
+			}
+
 			var sum vector3.Float64
 
 			for vn := range lut.Lookup(vi) {
